@@ -4,7 +4,7 @@
 From Coq Require Import List NArith ZArith Bool.
 From GoPdf.Base Require Import Bytes Res.
 From GoPdf.Gen Require Import Gen_Limits.
-From GoPdf.C08 Require Import Stream Simple LZW Predict Params.
+From GoPdf.C08 Require Import Stream Simple LZW Predict Params Charge.
 Import ListNotations.
 
 Inductive stage :=
@@ -42,3 +42,19 @@ Fixpoint run_chain (avail : Z) (ss : list stage) (inp : bytes) (t : tl) : dres :
 (* DecodeStream on a stream of these raw bytes *)
 Definition decode_stream (ss : list stage) (raw : bytes) : dres :=
   run_chain (StreamBudget (Z.of_nat (length raw))) ss raw None.
+
+(* the allocation sites of a chain that charge the shared budget cell (of the modelled
+   stages only LZW with a predictor has one), and the fixed tables that do not *)
+Definition stage_sites (s : stage) : list Charge.site :=
+  match s with
+  | SLZW d =>
+    let p := predict_params (fst (parse_lzw d)) in
+    if pp_validate p && negb (p_pred p =? 1)%Z then [Charge.predict_site p] else []
+  | _ => []
+  end.
+
+Definition stage_fixed (s : stage) : Z :=
+  match s with SLZW _ => Charge.lzw_table_bytes | _ => 0%Z end.
+
+Definition chain_sites (ss : list stage) : list Charge.site := flat_map stage_sites ss.
+Definition chain_fixed (ss : list stage) : Z := fold_right (fun s a => (stage_fixed s + a)%Z) 0%Z ss.
